@@ -136,6 +136,17 @@ func eval1(c Case) (evid.Verdict, bool) {
 			pres = pres[:c.A]
 		case "extend":
 			pres = append(pres, byte(c.A))
+		case "extend-hmac":
+			// the checksum followed by the octets the truncation cut off: the first A octets of the untruncated HMAC
+			full, err := ref.ChecksumFull(c.Ck, key, c.Usage, data)
+			if err != nil {
+				return evid.Fail("harness", "reference: %v", err)
+			}
+			if c.A <= len(pres) || c.A > len(full) {
+				trivial = true
+				return evid.Pass()
+			}
+			pres = append([]byte{}, full[:c.A]...)
 		case "bitflip":
 			pres[c.A/8] ^= 1 << uint(c.A%8)
 		case "otherdata":
@@ -255,12 +266,14 @@ func TestProp(t *testing.T) {
 		c.Key = hex.EncodeToString(kgen.Key(t, et, "key"))
 		c.Data = hex.EncodeToString(kgen.Bytes(t, "data", rapid.IntRange(0, 200).Draw(t, "len")))
 		cl := ref.CksumLen(et)
-		c.Variant = rapid.SampledFrom([]string{"value", "correct", "prefix", "extend", "bitflip", "otherdata", "otherkey", "otherkey-inplace", "otherkeylen", "otherusage"}).Draw(t, "variant")
+		c.Variant = rapid.SampledFrom([]string{"value", "correct", "prefix", "extend", "extend-hmac", "bitflip", "otherdata", "otherkey", "otherkey-inplace", "otherkeylen", "otherusage"}).Draw(t, "variant")
 		switch c.Variant {
 		case "prefix":
 			c.A = rapid.IntRange(0, cl-1).Draw(t, "plen")
 		case "extend":
 			c.A = rapid.IntRange(0, 255).Draw(t, "byte")
+		case "extend-hmac":
+			c.A = rapid.IntRange(cl+1, 64).Draw(t, "hmac-octets")
 		case "bitflip":
 			c.A = rapid.IntRange(0, cl*8-1).Draw(t, "bit")
 		case "otherdata":
@@ -287,7 +300,7 @@ func TestProp(t *testing.T) {
 		judge("cksum", c, t)
 	})
 	// Enumeration
-	r.Rule("enum: type map over ids -200..40 and 32771; for each checksum type x selected data lengths x usages: value, every proper prefix, every one-byte extension (quick: 4 byte values, thorough: all 256), every single-bit flip, other data/key, keys of 0/8/16/24/32 octets where another length is due x {right-key checksum, empty, nil}, every other usage")
+	r.Rule("enum: type map over ids -200..40 and 32771; for each checksum type x selected data lengths x usages: value, every proper prefix, every one-byte extension (quick: 4 byte values, thorough: all 256), the checksum continued by the octets of the untruncated HMAC it was cut from (every length up to the full HMAC), every single-bit flip, other data/key, keys of 0/8/16/24/32 octets where another length is due x {right-key checksum, empty, nil}, every other usage")
 	for id := -200; id <= 40; id++ {
 		judge("enum", Case{Variant: "typemap", A: id}, nil)
 	}
@@ -354,6 +367,11 @@ func TestProp(t *testing.T) {
 			for b := 0; b < 256; b++ {
 				ext = append(ext, b)
 			}
+		}
+		for l := cl + 1; l <= 64; l++ {
+			c = base
+			c.Variant, c.A = "extend-hmac", l
+			judge("enum", c, nil)
 		}
 		for _, b := range ext {
 			c = base
